@@ -24,6 +24,8 @@ CONSTANTS Configs,        \* set of records [n, block, retries, preload, release
           Disposals,      \* how the caller may dispose of a returned response
           MaxHeld,        \* responses the caller may still hold when it issues the next request
           Cuts,           \* TRUE: the server may cut one idle pooled connection between steps
+          HeadOutcomes,   \* outcome alphabet of HEAD requests ({}: every request is a GET); replies to HEAD carry the
+                          \* headers of the chosen reply (Content-Length / chunked / close-delimited) and no body
           BadArgs,        \* TRUE: a request may carry an invalid per-request timeout (fails before any checkout)
           KnownDefects,   \* subset of {"C01_F1"} \cup design mutants {"M_CloseNoRelease", ...}
           TreeTraits      \* behaviours that differ between revisions of the tree and do not matter to the Rules;
@@ -42,8 +44,12 @@ SendSyms    == {"s_epipe", "s_reset", "s_oserr", "s_boom"}
 RecvSyms    == {"r_timeout", "r_reset", "r_eof", "r_garbage", "r_ssl", "r_boom"}
 \* replies; s503_ra_bad: 503 whose Retry-After value cannot be parsed (Retry.sleep raises InvalidHeader);
 \* s503_ra_boom: 503 with a valid Retry-After and an interrupt raised while urllib3 sleeps; ok_chunked: chunked framing
-ReplySyms   == {"ok_ka", "ok_close", "ok_chunked", "s503_ka", "s503_close", "s503_ra_bad", "s503_ra_boom",
-                "r302_ka", "r302_close", "short", "b_boom", "b_reset", "b_timeout"}
+\* ok_10: HTTP/1.0, close-delimited body; s204_ka: body-less status; bc_* / short_close: the will-close
+\* (Connection: close) variants of the mid-body faults -- http.client has then already detached the socket from
+\* the connection object and handed it to the response
+ReplySyms   == {"ok_ka", "ok_close", "ok_chunked", "ok_10", "s204_ka", "s503_ka", "s503_close", "s503_ra_bad",
+                "s503_ra_boom", "r302_ka", "r302_close", "short", "short_close", "b_boom", "b_reset", "b_timeout",
+                "bc_boom", "bc_reset", "bc_timeout"}
 \* the connection object cannot even be built after the slot was checked out (ConnectionCls constructor raises:
 \* http.client.InvalidURL for a host with a blank, or a BaseException)
 NewSyms     == {"n_invalid", "n_boom"}
@@ -122,11 +128,15 @@ BodyErr(f) == CASE f = "short" -> "ProtocolError" [] f = "b_reset" -> "ProtocolE
 
 \* one pass through HTTPResponse._error_catcher that fails: close the original response and the held
 \* connection, then release it
+\* Named deviation UncleanExitClosesConnOnly: only the held connection is closed, in the belief that this closes the
+\* response too.  It does for a keep-alive response (the connection's current one); a will-close response was
+\* detached from the connection when its head arrived, stays open, and the release below is skipped.
 WBodyFail(w, k) ==
-    LET w1 == [w EXCEPT !.rs[k].fp = FALSE, !.rs[k].fault = "none",
-                        !.rs[k].ker = IF w.rs[k].fault = "b_timeout" THEN FALSE ELSE @]
-        w2 == WClose(w1, w1.rs[k].conn) IN
-    WRelease(w2, k)
+    LET c  == w.rs[k].conn
+        w1 == [w EXCEPT !.rs[k].fault = "none", !.rs[k].ker = IF w.rs[k].fault = "b_timeout" THEN FALSE ELSE @]
+        w2 == IF Has("UncleanExitClosesConnOnly") /\ c # NONE THEN WClose(w1, c)
+              ELSE WClose([w1 EXCEPT !.rs[k].fp = FALSE], c) IN
+    IF w2.rs[k].fp THEN w2 ELSE WRelease(w2, k)      \* release only `if original_response.isclosed()`
 
 \* read() to the end
 ReadAll(w, k) ==
@@ -148,7 +158,11 @@ Read2Rel(w, k) ==
     ELSE [w |-> WBodyFail(w, k), out |-> BodyErr(r.fault)]
 
 \* for chunk in stream(2): pass      -- no read at all when the body is already exhausted
+\* A chunked response goes through read_chunked(), whose shortcut for replies to HEAD closes the response and
+\* returns inside _error_catcher (which then releases); named deviation HeadShortcutOutsideCatcher: outside it.
 StreamAll(w, k) ==
+    IF w.rs[k].fp /\ w.rs[k].head /\ w.rs[k].chunked /\ Has("HeadShortcutOutsideCatcher")
+    THEN [w |-> [w EXCEPT !.rs[k].fp = FALSE], out |-> "ok"] ELSE
     IF ~w.rs[k].fp THEN [w |-> IF Has("C01_F1") THEN w ELSE WRelease(w, k), out |-> "ok"]
     ELSE ReadAll(w, k)
 
@@ -181,10 +195,11 @@ Dispose(w, k, how) ==
       [] how = "close" -> CloseResp(w, k) [] how = "stream" -> StreamAll(w, k)
       [] how \in {"read1all", "read1n", "read1cl"} -> Read1(w, k, how)
 
-RetryInit(p) == CASE p = "F"  -> [total |-> FalseV, redir |-> 0, force |-> FALSE, ror |-> FALSE]
-                  [] p = "0"  -> [total |-> 0, redir |-> NoneV, force |-> FALSE, ror |-> TRUE]
-                  [] p = "1"  -> [total |-> 1, redir |-> NoneV, force |-> FALSE, ror |-> TRUE]
-                  [] p = "R2" -> [total |-> 2, redir |-> 1, force |-> TRUE, ror |-> TRUE]
+\* (head: the request in progress is a HEAD request -- kept here because it lives exactly as long as the budget)
+RetryInit(p) == CASE p = "F"  -> [total |-> FalseV, redir |-> 0, force |-> FALSE, ror |-> FALSE, head |-> FALSE]
+                  [] p = "0"  -> [total |-> 0, redir |-> NoneV, force |-> FALSE, ror |-> TRUE, head |-> FALSE]
+                  [] p = "1"  -> [total |-> 1, redir |-> NoneV, force |-> FALSE, ror |-> TRUE, head |-> FALSE]
+                  [] p = "R2" -> [total |-> 2, redir |-> 1, force |-> TRUE, ror |-> TRUE, head |-> FALSE]
 DecTotal(t) == IF t = FalseV THEN 0 - 1 ELSE t - 1
 Exhausted(r) == r.total < 0 \/ (r.redir # NoneV /\ r.redir < 0)
 
@@ -203,8 +218,10 @@ Step(op, id, how, out) == [op |-> op, id |-> id, atts |-> att, how |-> how, out 
 (* ---- caller starts request number Len(rof)+1 ---- *)
 StartReq ==
     /\ pc = "idle" /\ Len(rof) < MaxReqs /\ Cardinality(Live) <= MaxHeld
-    /\ \E kind \in (IF BadArgs THEN {"get", "prefail"} ELSE {"get"}) : pc' = kind
-    /\ ret' = RetryInit(cfg.retries) /\ att' = <<>> /\ nd' = 0 /\ inj' = FALSE
+    /\ \E kind \in {"get"} \cup (IF BadArgs THEN {"prefail"} ELSE {}) \cup (IF HeadOutcomes # {} THEN {"head"} ELSE {}) :
+          /\ pc' = IF kind = "head" THEN "get" ELSE kind
+          /\ ret' = [RetryInit(cfg.retries) EXCEPT !.head = (kind = "head")]
+    /\ att' = <<>> /\ nd' = 0 /\ inj' = FALSE
     /\ cur' = NONE /\ pend' = "" /\ rcur' = 0 /\ err' = "" /\ plan' = ""
     /\ clean' = FALSE /\ rel' = cfg.release
     /\ UNCHANGED <<cfg, queue, conns, socks, resp, rof, outs, hist, ncut, leases>>
@@ -213,7 +230,7 @@ EndReq(out, res, cls, k) ==
     /\ pc' = "idle"
     /\ rof' = Append(rof, k)
     /\ outs' = Append(outs, [res |-> res, cls |-> cls, inj |-> inj \/ cls = "interrupt"])
-    /\ hist' = Append(hist, Step("req", Len(rof) + 1, IF pc = "prefail" THEN "badarg" ELSE "", out))
+    /\ hist' = Append(hist, Step("req", Len(rof) + 1, IF pc = "prefail" THEN "badarg" ELSE IF ret.head THEN "head" ELSE "", out))
 
 (* ---- the request fails before any checkout: urlopen(timeout=<not a number>) -> ValueError from _get_timeout. ---- *)
 (* Design: the caller gets its ValueError and the pool is not touched.  The named deviation PutWithoutCheckout   *)
@@ -245,7 +262,7 @@ GetConn ==
                       ELSE IF dropped /\ conns[item].sock # 0
                            THEN [w0 EXCEPT !.cn[item] = [sock |-> 0, unfin |-> 0, prox |-> FALSE]]  \* mutant: forgotten
                            ELSE w0
-                alphabet == IF att = <<>> THEN FirstOutcomes ELSE LaterOutcomes IN
+                alphabet == IF ret.head THEN HeadOutcomes ELSE IF att = <<>> THEN FirstOutcomes ELSE LaterOutcomes IN
             /\ \E sym \in alphabet \cup {"x_stale"} :
                   IF sym \in NewSyms
                   THEN \* self._new_conn() raises: the slot is checked out, urlopen's `conn` is still None
@@ -290,12 +307,15 @@ Send ==
     /\ UNCHANGED <<cfg, queue, conns, socks, resp, rof, cur, plan, att, ret, clean, rel, pend, rcur, nd, outs, hist, ncut,
                    leases>>
 
-IsClose(sym) == sym \in {"ok_close", "s503_close", "r302_close"}
+IsClose(sym) == sym \in {"ok_close", "ok_10", "s503_close", "r302_close", "short_close", "bc_boom", "bc_reset", "bc_timeout"}
 PeerCloses(sym) == IsClose(sym) \/ sym = "short"
-StatusOf(sym) == IF sym \in {"r302_ka", "r302_close"} THEN "302"
+StatusOf(sym) == IF sym \in {"r302_ka", "r302_close"} THEN "302" ELSE IF sym = "s204_ka" THEN "204"
                  ELSE IF sym \in {"s503_ka", "s503_close", "s503_ra_bad", "s503_ra_boom"} THEN "503" ELSE "200"
 RetryAfterOf(sym) == IF sym = "s503_ra_bad" THEN "bad" ELSE IF sym = "s503_ra_boom" THEN "boom" ELSE ""
-FaultOf(sym) == IF sym = "short" THEN "short" ELSE IF sym \in {"b_boom", "b_reset", "b_timeout"} THEN sym ELSE "none"
+FaultOf(sym) == CASE sym \in {"short", "short_close"} -> "short" [] sym \in {"b_boom", "bc_boom"} -> "b_boom"
+                  [] sym \in {"b_reset", "bc_reset"} -> "b_reset" [] sym \in {"b_timeout", "bc_timeout"} -> "b_timeout"
+                  [] OTHER -> "none"
+NoBody(sym) == StatusOf(sym) \in {"302", "204"}
 
 (* ---- conn.getresponse(): status line + headers; http.client closes on Connection: close ---- *)
 Recv ==
@@ -319,10 +339,11 @@ Recv ==
             LET s == conns[cur].sock
                 k == Len(resp) + 1
                 r == [live |-> FALSE, conn |-> NONE, hc |-> cur, sock |-> s, fp |-> TRUE,
-                      ker |-> ~(StatusOf(sym) = "302" \/ sym = "b_timeout"), fault |-> FaultOf(sym),
-                      len0 |-> StatusOf(sym) = "302", status |-> StatusOf(sym),
+                      ker |-> ~(NoBody(sym) \/ ret.head \/ sym \in {"b_timeout", "bc_timeout"}),
+                      fault |-> IF ret.head THEN "none" ELSE FaultOf(sym),
+                      len0 |-> NoBody(sym) \/ ret.head, status |-> StatusOf(sym), head |-> ret.head,
                       \* rem: length_remaining is a number > 0 (Content-Length framing, body not delivered yet)
-                      rem |-> StatusOf(sym) # "302" /\ sym # "ok_chunked",
+                      rem |-> ~NoBody(sym) /\ ~ret.head /\ sym \notin {"ok_chunked", "ok_10"},
                       chunked |-> sym = "ok_chunked", ra |-> RetryAfterOf(sym)]
                 w1 == [w EXCEPT !.rs = Append(@, r),
                                 !.sk[s].cut = PeerCloses(sym)]
